@@ -193,3 +193,23 @@ func C02_MultiTransferSameShard() {
 	o.SameOnly, o.MultiK = true, 1
 	sendCheck(scnMultiTransfer(o))
 }
+
+func init() {
+	reg("C02_NFTAddQuantityWideNonce", C02_NFTAddQuantityWideNonce)
+	reg("C02_NFTBurnWideNonce", C02_NFTBurnWideNonce)
+}
+
+// wideNonceOpt is the C02 family's option set with the nonce argument at 8 and 9 bytes: a nonce
+// beyond the machine word (2^64 and its multiples read as 0 after truncation) must not turn an NFT
+// operation into one on the fungible entry.
+var wideNonceOpt = Opt{GasEnough: true, NoRAE: true, Direct: true, NoCall: true, FixedCaller: true, NoPause: true, Small: true, NoURIs: true}
+
+func C02_NFTAddQuantityWideNonce() {
+	wideNonce = true
+	supplyOracle(scnNFTAddQuantity(wideNonceOpt))
+}
+
+func C02_NFTBurnWideNonce() {
+	wideNonce = true
+	supplyOracle(scnNFTBurn(wideNonceOpt))
+}
